@@ -13,8 +13,8 @@ the buffer-mode decoder (value scanner, number tokeniser with its terminator che
 literal checks, member/element loops, depth counter, trailing-data check against the NUL
 terminator) succeeds exactly when `b` is white space, one value of the grammar, white space —
 nested at most 10000 deep, every number within float64 range — where the grammar is RFC 8259
-relaxed by the open findings only (`rxCurrent`: raw control bytes inside strings, D02).
-So the list of relaxations is complete: nothing else is accepted, nothing of the language is rejected. -/
+with no relaxation (`rxCurrent = Relax.none`; the one relaxation the tree used to need, raw control
+bytes inside strings, D02, was repaired): nothing else is accepted, nothing of the language is rejected. -/
 theorem accepts_iff (range : Bool) (b : List UInt8) :
     accepts range b = true ↔ ValidText rxCurrent range maxDepth b :=
   ⟨accepts_sound range b, accepts_complete range b⟩
@@ -29,8 +29,48 @@ theorem accepts_whole_input (range : Bool) (b : List UInt8) (h : accepts range b
   let ⟨w1, v, w2, e, h1, h2, _⟩ := accepts_sound range b h
   ⟨w1, v, w2, e, h1, h2⟩
 
-/-- Known finding D02, machine-checked on the model: a raw control byte inside a string is accepted. -/
-theorem ctl_in_string_accepted : accepts true [34, 97, 1, 98, 34] = true := by decide +kernel
+/-- the grammar of `accepts_iff` is RFC 8259 itself -/
+theorem grammar_is_rfc8259 : rxCurrent = Relax.none := rfl
+
+theorem scanBody_ctl (pre rest : List UInt8) (c : UInt8) (hc : c.toNat < 32)
+    (hpre : ∀ b ∈ pre, b ≠ 34 ∧ b ≠ 92 ∧ 32 ≤ b.toNat) :
+    Model.StrDec.scanBody (pre ++ c :: rest) = .error .syntaxErr := by
+  induction pre with
+  | nil =>
+    have h1 : (c == 92) = false := by
+      apply beq_false_of_ne; rintro rfl; exact absurd hc (by decide)
+    have h2 : (c == 34) = false := by
+      apply beq_false_of_ne; rintro rfl; exact absurd hc (by decide)
+    simp only [List.nil_append]
+    unfold Model.StrDec.scanBody
+    simp [h1, h2, hc]
+  | cons b pre ih =>
+    obtain ⟨hb1, hb2, hb3⟩ := hpre b (by simp)
+    have hb4 : ¬ b.toNat < 32 := by omega
+    simp only [List.cons_append]
+    unfold Model.StrDec.scanBody
+    simp [hb1, hb2, hb4, ih (fun x hx => hpre x (by simp [hx]))]
+
+/-- Finding D02 (repaired): a raw control byte inside a string is rejected, for every such byte and
+wherever it stands in the string (`pre`: the bytes of the string before it, none of them a quote,
+a backslash or a control byte). -/
+theorem ctl_in_string_rejected (range : Bool) (pre post : List UInt8) (c : UInt8) (hc : c.toNat < 32)
+    (hpre : ∀ b ∈ pre, b ≠ 34 ∧ b ≠ 92 ∧ 32 ≤ b.toNat) :
+    accepts range (34 :: pre ++ c :: post) = false := by
+  unfold accepts
+  have hfuel : 2 * (34 :: pre ++ c :: post).length + 4 = (2 * (34 :: pre ++ c :: post).length + 3) + 1 := by omega
+  rw [hfuel]
+  simp only [List.cons_append, List.append_assoc]
+  unfold value
+  have hws : skipWs (34 :: (pre ++ (c :: (post ++ [0])))) = 34 :: (pre ++ (c :: (post ++ [0]))) := by
+    unfold skipWs
+    have : wsTbl 34 = false := by decide +kernel
+    simp [this]
+  rw [hws]
+  have hs := scanBody_ctl pre (post ++ [0]) c hc hpre
+  simp [stringTail, hs]
+
+example : accepts true [34, 97, 1, 98, 34] = false := by decide +kernel
 
 /-- non-vacuity: concrete verdicts computed by the kernel -/
 example : accepts true "[1, {\"a\": null}, \"x\"] ".toUTF8.toList = true := by decide +kernel
